@@ -608,6 +608,31 @@ Proof.
     destruct x as [|[|[|[|[|[|x]]]]]]; vm_compute in L; try discriminate L; cbn; auto.
 Qed.
 
+(* ---- the verdict for the code as it is, through the switch read from /repo (Generated/Facts_C15.v) ---- *)
+Definition code_verdict (v : variant) : Prop :=
+  if walk_merges v then normal_statement v /\ ~ full_statement v
+  else ~ normal_statement v /\ nonmerge_statement v /\ ~ full_statement v.
+
+Theorem code_verdict_holds v : code_verdict v.
+Proof.
+  unfold code_verdict. destruct (walk_merges v) eqn:W.
+  - split; [exact (normal_holds_when_merges_walked v W) | exact (full_refuted v)].
+  - split; [exact (normal_refuted_when_merges_hidden v W) | split; [exact (nonmerge_holds v) | exact (full_refuted v)]].
+Qed.
+
+(* The repaired loop (commit "reset refuses when an integration branch holds a hand-made merge commit"): both logs
+   show merge commits and the parent test looks at all parents.  [eq_refl] only type-checks while
+   Generated/Facts_C15.v says so: reverting the repair in /repo breaks this proof. *)
+Theorem code_is_repaired : code_variant = mkVariant true true true.
+Proof. exact eq_refl. Qed.
+
+Theorem code_statement :
+  walk_merges code_variant = true /\ normal_statement code_variant /\ ~ full_statement code_variant.
+Proof.
+  assert (W : walk_merges code_variant = true) by (rewrite code_is_repaired; reflexivity).
+  split; [exact W | split; [exact (normal_holds_when_merges_walked code_variant W) | exact (full_refuted code_variant)]].
+Qed.
+
 (* ------------------------------------------------------------------------------------------------
    3. scope: what the command deletes and declines
    ------------------------------------------------------------------------------------------------ *)
